@@ -585,6 +585,9 @@ func (e *Engine) evalSpecCall(x *SExpr, env *SpecEnv) Value {
 		if len(args) != 1 || args[0].Kind != "ident" {
 			unsup("spec: ncalled expects a callee name")
 		}
+		if e.ncalledDirty["ncalled:"+args[0].Val] {
+			return VTerm{T: e.fresh("ncalled_unknown", SInt), Typ: intT}
+		}
 		return VTerm{T: env.st.getMem("ncalled:"+args[0].Val, mkInt(0)), Typ: intT}
 	case "res":
 		// res(Callee_Name[, i[, j]]): result of the i-th contract call of that callee in the function under verification
